@@ -455,9 +455,10 @@ class Program:
                             return vis, None
                 if tq is not None:
                     return [], f"{tq}.{fn.attr}"
-            # name-based CHA: the method name is defined by package classes
+            # name-based CHA: the method name is defined by package classes (never for dunders / super())
             cs = self.classes_defining(fn.attr)
-            if cs and fn.attr not in _COMMON_METHOD_NAMES:
+            is_super = isinstance(recv, ast.Call) and isinstance(recv.func, ast.Name) and recv.func.id == "super"
+            if cs and fn.attr not in _COMMON_METHOD_NAMES and not fn.attr.startswith("__") and not is_super:
                 return [c.methods[fn.attr] for c in cs], None
             return [], f"?.{fn.attr}"
         return [], None
